@@ -28,6 +28,7 @@ OpsDPC == {"duties", "dutiesc", "proposal"}
 OpsSub == {"submit", "submitb"}
 OpsAll == {"duties", "proposal", "submit", "submitb", "prep"}
 OpsPP == {"proposal", "prep"}
+OpsProp == {"proposal"}
 E0 == {0}
 E01 == {0, 1}
 E012 == {0, 1, 2}
